@@ -122,13 +122,13 @@ CHECKS = {
                 note='trusted: clang-14 -O0 + opt-14 mem2reg, irparse.py, taint.py (field-insensitive objects, context-insensitive '
                      'summaries, dominance-based guard recognition); library functions are recognised by name (Avtp_*/avtp_*)'),
     'C19': dict(cat='proof', tech='abstract interpretation of talker builder + listener receive path with modelled I/O',
-                text='init_cf_pdu / prepare_acf_packet / update_cf_length of the talker and new_packet of the listener are interpreted by '
+                text='The talker\'s real main() (sending loop, packet building, length bookkeeping) and new_packet of the listener are interpreted by '
                      'the bit-provenance engine over the IR of the example programs linked with the library; identifier (11/29 bits), RTR, '
                      'BRS/ESI/FDF and all data octets stay symbolic, frame length (0..8 / 0..64), TSCF/NTSCF, UDP/raw and 1-3 frames per '
                      'packet are enumerated (quick 260 scenarios, thorough 588). The frames handed to write() must equal the input frames '
                      'bit for bit and the control header must announce exactly the ACF octets that follow.', ref='4.19',
-                note=TB + '; recv/write/clock_gettime/stdio are modelled in verif/checks/c19.py; the talker main() loop is mirrored by the '
-                     'analysis script rather than analysed; input frames are assumed well-formed (standard frame: no identifier bit above 10)'),
+                note=TB + '; recv/write/clock_gettime/stdio are modelled in verif/checks/c19.py; argp_parse and the socket helpers are replaced by models; the listener main()/poll '
+                     'loop is not analysed; input frames are assumed well-formed (standard frame: no identifier bit above 10)'),
 }
 
 PENDING = ['C05', 'C06', 'C07', 'C08', 'C09', 'C10', 'C12', 'C13', 'C14', 'C15', 'C16', 'C17', 'C18', 'C19', 'C20']
